@@ -13,36 +13,64 @@ from amaranth_soc.wishbone.sram import WishboneSRAM
 
 FEATS = ["err", "rty", "stall", "lock", "cti", "bte"]
 
+from amaranth.lib import enum as _aenum
+
+
+class OneHot(_aenum.Enum, shape=unsigned(3)):
+    """an enumeration without a member of value 0"""
+    IDLE = 1
+    BUSY = 2
+    DONE = 4
+
+
 
 def components(rnd, n):
     """yields (description, component, port name, role, maker of the complementary interface)"""
     out = []
+
+    def add(descr, mk, port, role):
+        try:
+            out.append((descr, mk(), port, role))
+        except Exception as e:            # a legal configuration that cannot even be constructed
+            out.append((descr, e, port, role))
     for _ in range(n):
         aw, dw = rnd.randint(1, 8), rnd.choice([8, 16, 32])
         mm = MemoryMap(addr_width=aw, data_width=dw)
-        out.append((f"csr.Multiplexer(aw={aw},dw={dw})", csr.Multiplexer(mm), "bus", "target"))
-        out.append((f"csr.Decoder(aw={aw},dw={dw})", csr.Decoder(addr_width=aw, data_width=dw), "bus", "target"))
+        add(f"csr.Multiplexer(aw={aw},dw={dw})", lambda: csr.Multiplexer(mm), "bus", "target")
+        add(f"csr.Decoder(aw={aw},dw={dw})", lambda: csr.Decoder(addr_width=aw, data_width=dw), "bus", "target")
         b = csr.Builder(addr_width=aw, data_width=dw)
         b.add("r", csr.Register(csr.Field(csr.action.RW, rnd.randint(1, dw)), access="rw"))
-        out.append((f"csr.Bridge(aw={aw},dw={dw})", csr.Bridge(b.as_memory_map()), "bus", "target"))
+        add(f"csr.Bridge(aw={aw},dw={dw})", lambda: csr.Bridge(b.as_memory_map()), "bus", "target")
         p = dict(pin_count=rnd.randint(1, 9), addr_width=rnd.randint(4, 8), data_width=rnd.choice([8, 16, 32]), input_stages=rnd.randint(0, 3))
-        out.append((f"gpio.Peripheral({p})", gpio.Peripheral(**p), "bus", "target"))
+        add(f"gpio.Peripheral({p})", lambda: gpio.Peripheral(**p), "bus", "target")
         em = event.EventMap()
         n_ev = rnd.choice([0, 1, 3, 9, 20])
         for _ in range(n_ev):
             em.add(event.Source(trigger=rnd.choice(["level", "rise", "fall"])))
         q = dict(data_width=rnd.choice([8, 16, 32]), alignment=rnd.choice([0, 1, 2]), trigger=rnd.choice(["level", "rise", "fall"]))
-        out.append((f"csr.EventMonitor(events={n_ev},{q})", csr.EventMonitor(em, **q), "bus", "target"))
+        add(f"csr.EventMonitor(events={n_ev},{q})", lambda: csr.EventMonitor(em, **q), "bus", "target")
         cdw = rnd.choice([8, 16, 32, 64]); wdw = rnd.choice([x for x in (8, 16, 32, 64) if x >= cdw]); caw = rnd.randint(4, 8)
+        ratio_bits = (wdw // cdw).bit_length() - 1
+        if rnd.random() < .4:
+            caw = max(1, ratio_bits + rnd.choice([0, 0, 1]))      # the whole CSR space is one or two Wishbone words
         cb = csr.Interface(addr_width=caw, data_width=cdw); cb.memory_map = MemoryMap(addr_width=caw, data_width=cdw)
-        out.append((f"WishboneCSRBridge(csr_dw={cdw},csr_aw={caw},wb_dw={wdw})", WishboneCSRBridge(cb, data_width=wdw), "wb_bus", "target"))
+        add(f"WishboneCSRBridge(csr_dw={cdw},csr_aw={caw},wb_dw={wdw})", lambda: WishboneCSRBridge(cb, data_width=wdw), "wb_bus", "target")
         dw2 = rnd.choice([8, 16, 32, 64]); g2 = rnd.choice([x for x in (8, 16, 32, 64) if x <= dw2]); size = rnd.choice([s for s in (2, 8, 64) if s * g2 >= dw2])
-        out.append((f"WishboneSRAM(size={size},dw={dw2},gran={g2})", WishboneSRAM(size=size, data_width=dw2, granularity=g2, writable=rnd.random() < .7), "wb_bus", "target"))
+        add(f"WishboneSRAM(size={size},dw={dw2},gran={g2})", lambda: WishboneSRAM(size=size, data_width=dw2, granularity=g2, writable=rnd.random() < .7), "wb_bus", "target")
         fs = {f for f in FEATS if rnd.random() < .5}; aw3 = rnd.randint(0, 8)
-        out.append((f"wishbone.Decoder(aw={aw3},dw={dw2},gran={g2},features={sorted(fs)})",
-                    wishbone.Decoder(addr_width=aw3, data_width=dw2, granularity=g2, features=fs), "bus", "target"))
-        out.append((f"wishbone.Arbiter(aw={aw3},dw={dw2},gran={g2},features={sorted(fs)})",
-                    wishbone.Arbiter(addr_width=aw3, data_width=dw2, granularity=g2, features=fs), "bus", "initiator"))
+        add(f"wishbone.Decoder(aw={aw3},dw={dw2},gran={g2},features={sorted(fs)})",
+            lambda: wishbone.Decoder(addr_width=aw3, data_width=dw2, granularity=g2, features=fs), "bus", "target")
+        add(f"wishbone.Arbiter(aw={aw3},dw={dw2},gran={g2},features={sorted(fs)})",
+            lambda: wishbone.Arbiter(addr_width=aw3, data_width=dw2, granularity=g2, features=fs), "bus", "initiator")
+    # fixed corners: the whole CSR space is exactly one Wishbone word (the Wishbone port has no address bits)
+    for cdw, wdw in ((8, 16), (8, 32), (16, 64), (8, 64)):
+        caw = (wdw // cdw).bit_length() - 1
+
+        def mk(cdw=cdw, wdw=wdw, caw=caw):
+            cb = csr.Interface(addr_width=caw, data_width=cdw)
+            cb.memory_map = MemoryMap(addr_width=caw, data_width=cdw)
+            return WishboneCSRBridge(cb, data_width=wdw)
+        add(f"WishboneCSRBridge(csr_dw={cdw},csr_aw={caw},wb_dw={wdw})", mk, "wb_bus", "target")
     return out
 
 
@@ -68,6 +96,9 @@ def connect_cases(seed, n):
     rnd = lib.rng_for(seed, 0, 2020)
     res = []
     for descr, comp, port, role in components(rnd, n):
+        if isinstance(comp, Exception):
+            res.append((descr, port, role, f"cannot be constructed: {type(comp).__name__}: {str(comp)[:160]}"))
+            continue
         try:
             try_connect(comp, port, role)
             res.append((descr, port, role, None))
@@ -84,7 +115,7 @@ def signature_grid():
     for w, acc in itertools.product([0, 1, 8, 12], ["r", "w", "rw"]):
         rows.append(("csr.Element.Signature", {"width": w, "access": acc}, lambda w=w, acc=acc: csr.Element.Signature(w, acc)))
     # the same cast shape in several spellings (an enum and its width, an int and unsigned(n), a range): equal signatures
-    for shp, acc in itertools.product([unsigned(0), 0, unsigned(5), range(32), signed(5), range(-16, 16), gpio.PinMode, unsigned(2), range(4), 8, unsigned(8)],
+    for shp, acc in itertools.product([unsigned(0), 0, unsigned(5), range(32), signed(5), range(-16, 16), gpio.PinMode, unsigned(2), range(4), 8, unsigned(8), OneHot, unsigned(3)],
                                       ["r", "w", "rw", "nc"]):
         rows.append(("csr.FieldPort.Signature", {"shape": repr(Shape.cast(shp)), "access": acc}, lambda shp=shp, acc=acc: csr.FieldPort.Signature(shp, acc)))
     for aw, (dw, gran), f in itertools.product([0, 5], [(8, 8), (32, 8), (32, 32)], range(64)):
@@ -109,7 +140,12 @@ def signature_grid():
 def signature_checks():
     fails, stats = [], {"signatures": 0, "pairs": 0, "roundtrips": 0}
     rows = signature_grid()
-    sigs = [(c, p, mk()) for c, p, mk in rows]
+    sigs = []
+    for c, p, mk in rows:
+        try:
+            sigs.append((c, p, mk()))
+        except Exception as e:
+            fails.append(("C20", f"{c}{p}: the signature cannot be constructed: {type(e).__name__}: {str(e)[:120]}", f"ctor:{c}"))
     stats["signatures"] = len(sigs)
     for c, p, s in sigs:
         try:
@@ -155,6 +191,10 @@ def signature_checks():
                 fails.append(("C20", f"wishbone.Signature built from the {type(given).__name__} {sorted(fs0)} changed when the caller's collection "
                                      f"was modified afterwards: members/features {before} -> {after}, == reference: {sig == ref}", "alias:wishbone.Signature"))
     for c, p, mk in rows:
-        if not (mk() == mk()):
+        try:
+            a_, b_ = mk(), mk()
+        except Exception:
+            continue
+        if not (a_ == b_):
             fails.append(("C20", f"{c}{p}: two signatures with equal parameters compare unequal", f"eq-self:{c}"))
     return fails, stats
